@@ -24,7 +24,7 @@ fn mappings(toks: &[(u32, u32, Option<(u32, u32, u32)>, Option<u32>)]) -> String
 // ------------------------------------------------------------------ C14
 /// Hermes scope lookup and function-map decoding against an independent reading of Metro's format
 pub fn hermes_scope() -> Report {
-    let bound = "function maps with <= 4 entries over lines {1,2,3} x columns {0,2,5} (grouped into ';' groups in every way that keeps a line's entries together or apart), name indices in/out of range; tokens at original (line in 0..3, col in 0..6); 6 three-source maps with null metadata before / between / after function maps (one function map without names) and one range token per source, 8 bytecode offsets per source, as decoded and after serialising and decoding again";
+    let bound = "function maps with <= 4 entries over lines {1,2,3} x columns {0,2,5} (grouped into ';' groups in every way that keeps a line's entries together or apart), name indices in/out of range; tokens at original (line in 0..3, col in 0..6); 8 three-source maps with null metadata before / between / after function maps (one function map without names, one cut off; each followed by a second scope mapping that must be ignored) and one range token per source, 8 bytecode offsets per source, as decoded and after serialising and decoding again";
     let mut cases = 0u64;
     let poss: Vec<(u32, u32)> = (1..=3).flat_map(|l| [0u32, 2, 5].into_iter().map(move |c| (l, c))).collect();
     // choose increasing subsets of size <= 4
@@ -66,7 +66,8 @@ pub fn hermes_scope() -> Report {
     for metas in [vec![Some(0usize), None, Some(1)], vec![None, Some(0), Some(1)], vec![Some(0), Some(1), None], vec![None, None, Some(0)], vec![Some(2), Some(0), None], vec![Some(0), None, Some(2)], vec![Some(3), Some(0), Some(1)], vec![Some(0), Some(3), Some(1)]] {
         let fms = ["AAA,UCA,UDA", "AAA;KCC", "AAA", "AAA;ECC;ECg"];           // source A: <global>@1:0 foo@1:10 <global>@1:20 ; source B: <global>@1:0 bar@2:5 ; the fourth is cut off inside its last value after complete fields: it disables itself only
         let fnames = [r#"["<global>","foo"]"#, r#"["<global>","bar"]"#, "[]", r#"["<global>","x"]"#];   // the third function map has no names: its entry resolves to nothing
-        let meta_json: Vec<String> = metas.iter().map(|m| match m { Some(k) => format!(r#"[{{"names":{},"mappings":"{}"}}]"#, fnames[*k], fms[*k]), None => "null".into() }).collect();
+        // every function map is followed by a second scope mapping (other names, other entries) that must be ignored: the FIRST element is the function map
+        let meta_json: Vec<String> = metas.iter().map(|m| match m { Some(k) => format!(r#"[{{"names":{},"mappings":"{}"}},{{"names":["other","another"],"mappings":"AAA,ECA"}}]"#, fnames[*k], fms[*k]), None => "null".into() }).collect();
         // one range token per source on line 0: generated columns 0, 100, 200 -> original (0,0) of source 0, 1, 2
         let json = format!(r#"{{"version":3,"sources":["s0.js","s1.js","s2.js"],"names":[],"mappings":"AAAA,oGCAA,oGCAA","rangeMappings":"H","x_facebook_sources":[{}]}}"#, meta_json.join(","));
         cases += 1;
@@ -336,7 +337,7 @@ pub fn rewrite() -> Report {
 
 /// Hermes maps: every token resolves to the same enclosing function before and after rewrite
 pub fn hermes_rewrite() -> Report {
-    let bound = "Hermes maps with 2..3 sources, one function map per source, sources listed in every order relative to first use, an optional unreferenced source";
+    let bound = "Hermes maps with 2..3 sources, one function map per source, sources listed in every order relative to first use, an optional unreferenced source; 0..2 function maps for 3 sources used in 4 orders; answers compared in memory and after serialising and decoding the rewritten map again";
     let mut cases = 0u64;
     let orders: Vec<Vec<usize>> = vec![vec![0, 1], vec![1, 0], vec![0, 1, 2], vec![2, 1, 0], vec![1, 2, 0], vec![2, 0, 1]];
     for order in &orders { for unused in [false, true] {
@@ -354,6 +355,10 @@ pub fn hermes_rewrite() -> Report {
         let out = match guarded(|| smh.rewrite(&RewriteOptions::default())) { Ok(Ok(m)) => m, o => return r("hermes_rewrite", bound, cases, Some(format!("rewrite failed: {:?}", o.map(|x| x.map(|_| ()))))) };
         let after: Vec<(u32, String, Option<String>)> = out.tokens().map(|t| (t.get_dst_col(), t.get_source().unwrap_or("").to_string(), out.get_scope_for_token(t).map(|s| s.to_string()))).collect();
         if before != after { return r("hermes_rewrite", bound, cases, Some(format!("sources listed {srcs:?}, first used in order {order:?}, unreferenced last = {unused}: (column, source, function) before {before:?} after {after:?}"))); }
+        let mut bytes = vec![]; out.to_writer(&mut bytes).ok();
+        let again = match guarded(|| SourceMapHermes::from_slice(&bytes)) { Ok(Ok(m)) => m, o => return r("hermes_rewrite", bound, cases, Some(format!("rewritten Hermes map does not decode again: {:?}", o.map(|x| x.map(|_| ()))))) };
+        let after2: Vec<(u32, String, Option<String>)> = again.tokens().map(|t| (t.get_dst_col(), t.get_source().unwrap_or("").to_string(), again.get_scope_for_token(t).map(|s| s.to_string()))).collect();
+        if before != after2 { return r("hermes_rewrite", bound, cases, Some(format!("sources listed {srcs:?}, first used in order {order:?}, unreferenced last = {unused}, rewritten, serialised and decoded again: (column, source, function) before {before:?} after {after2:?}"))); }
     } }
     // fewer function maps than sources (malformed Hermes payloads must not make rewrite panic)
     for nfm in 0..=2usize { for used in 0..3u32 {
@@ -376,6 +381,11 @@ pub fn hermes_rewrite() -> Report {
         let out = match guarded(|| smh.rewrite(&RewriteOptions::default())) { Ok(Ok(m)) => m, o => return r("hermes_rewrite", bound, cases, Some(format!("rewrite failed: {:?}", o.map(|x| x.map(|_| ()))))) };
         let after: Vec<(u32, String, Option<String>)> = out.tokens().map(|t| (t.get_dst_col(), t.get_source().unwrap_or("").to_string(), out.get_scope_for_token(t).map(|s| s.to_string()))).collect();
         if before != after { return r("hermes_rewrite", bound, cases, Some(format!("Hermes map with {nfm} function maps for sources [a, b, c], tokens using sources {order:?} in turn: (column, source, function) before {before:?} after {after:?}"))); }
+        // the raw metadata follows too: the rewritten map answers the same after serialising and decoding again
+        let mut bytes = vec![]; out.to_writer(&mut bytes).ok();
+        let again = match guarded(|| SourceMapHermes::from_slice(&bytes)) { Ok(Ok(m)) => m, o => return r("hermes_rewrite", bound, cases, Some(format!("rewritten Hermes map does not decode again: {:?}", o.map(|x| x.map(|_| ()))))) };
+        let after2: Vec<(u32, String, Option<String>)> = again.tokens().map(|t| (t.get_dst_col(), t.get_source().unwrap_or("").to_string(), again.get_scope_for_token(t).map(|s| s.to_string()))).collect();
+        if before != after2 { return r("hermes_rewrite", bound, cases, Some(format!("Hermes map with {nfm} function maps for sources [a, b, c], tokens using sources {order:?} in turn, rewritten, serialised and decoded again: (column, source, function) before {before:?} after {after2:?}"))); }
     } }
     r("hermes_rewrite", bound, cases, None)
 }
